@@ -36,8 +36,12 @@ SPELL_DIR = [
     ("othercwd", "/cwd/deep", "../../data/name", "/data"),
     ("copy", "/cwd", "/mnt/x/y/name", "/mnt/x/y"),
     ("cwd-is-root", "/data/name", ".", "/data"),
+    ("cwd-inside.dotdot", "/data/name/d", "..", "/data"),          # only for shapes with the sub-directory d
+    ("cwd-inside.abs", "/data/name/d", "/data/name", "/data"),
 ]
 SPELL_FILE = [s for s in SPELL_DIR if s[0] in ("abs", "rel", "dot", "dotdot", "dblsep", "othercwd", "copy")]
+# nested3 = name/a, name/d/b, name/d/e/c : with the working directory at name/d the file name/a sorts differently when
+# paths are taken relative to the working directory ('../a' < 'b')
 
 
 def BOUNDS(tier):
@@ -52,17 +56,39 @@ def jobs(tier):
     q = tier == "quick"
     out = []
     for which in ["1", "2a", "3a"] + ([] if q else ["2c", "3c"]):
-        for shape, K in (("single", 2), ("flat2", 2), ("nested3", 1), ("case2", 1)):
+        for shape, K in (("single", 2), ("flat2", 2), ("nested3", 1), ("case2", 1), ("around3", 1)):
             spells = SPELL_FILE if shape == "single" else SPELL_DIR
             for i, sp in enumerate(spells):
-                if q and shape == "nested3" and sp[0] not in ("rel", "traildot", "copy", "cwd-is-root"):
+                if sp[0].startswith("cwd-inside") and shape not in ("nested3", "around3"):
+                    continue
+                if shape == "around3" and not sp[0].startswith("cwd-inside") and sp[0] != "rel":
+                    continue
+                if q and shape == "nested3" and sp[0] not in ("rel", "traildot", "copy", "cwd-is-root", "cwd-inside.dotdot", "cwd-inside.abs"):
                     continue
                 if shape == "case2" and sp[0] not in ("rel", "copy"):
                     continue
                 if q and which != "1" and shape == "flat2" and sp[0] in ("dbltrail", "dblsep", "dot"):
                     continue
                 out.append(("%s.%s.%s" % (which, shape, sp[0]), "job", dict(which=which, shape=shape, K=K, spell=i)))
+    for which in ["1", "2a", "3a"]:
+        out.append(("history.%s.add-below-root" % which, "job_history", dict(which=which, mut="add")))
+        out.append(("history.%s.grow-in-place" % which, "job_history", dict(which=which, mut="grow")))
     return out
+
+
+def job_history(E, which, mut, _mutants=None):
+    """The info dictionary depends on the payload as it is now, not on an earlier run of the same process."""
+    from harness import c09
+    P = 16384
+    fs, sizes = c09.base_fs(E, P)
+    w = World(fs, mutants=_mutants)
+    c09.do_create(E, w, which, P, "1")
+    sizes2 = c09.mutate(E, fs, sizes, mut, P)
+    got = c09.do_create(E, w, which, P, "2")
+    fresh = c09.do_create(E, World(fs.clone(), mutants=_mutants), which, P, "fresh")
+    E.check(c09.same(got, fresh), "C08.history.info-equal", "a second run in the same process gives %s, a fresh process %s" % (c09._brief(got), c09._brief(fresh)))
+    for k in WITNESSES:
+        E.witnesses.setdefault(k, True)
 
 
 def build(E, shape, sizes, base, cwd, order, tag):
@@ -121,6 +147,10 @@ def job(E, which, shape, K, spell, _mutants=None):
 def replay(params, model, notes, workdir, seed):
     import io
     import contextlib
+    if "mut" in params:
+        from harness import c09
+        bad = c09.replay(dict(which1=params["which"], which2=params["which"], mut=params["mut"], P1=16384, P2=16384), model, notes, workdir, seed)
+        return [b.replace("C09.create-after-create", "C08.history.info-equal") for b in bad]
     which, shape, spell = params["which"], params["shape"], params["spell"]
     label, cwd, arg, base = (SPELL_FILE if shape == "single" else SPELL_DIR)[spell]
     sizes = cr.concrete_sizes(shape, model)
